@@ -148,3 +148,45 @@ def run_partial(ctx, rep):
             else:
                 r.finding(inst + "|rest-dropped", where, "next() is called outside a loop and the iterator is then dropped: every further parsed item is silently discarded")
     r.note("%d next() calls on iterators over parsed nodes" % n)
+
+
+REVERSING = {"rev", "rfold", "try_rfold", "next_back", "nth_back", "rfind", "rposition", "reverse", "sort", "sort_by", "sort_by_key", "sort_unstable",
+             "sort_unstable_by", "sort_unstable_by_key", "sort_by_cached_key", "swap", "swap_remove", "rotate_left", "rotate_right", "rsplit", "rchunks",
+             "last", "pop_front", "dedup", "dedup_by", "dedup_by_key"}
+FORWARD = {"into_iter", "iter", "map", "collect", "fold", "next", "extend", "push", "flatten", "flat_map", "chain", "for_each", "filter_map", "cloned"}
+
+
+def run_order(ctx, rep):
+    """Source order is part of what was written.  The parser never has a reason to walk a parsed sequence backwards, sort it or
+    swap in it: a repetition `e*` yields its elements in source order and every consumer (left-nested access paths, statement lists,
+    declaration lists) relies on that.  Today no such call exists anywhere in the parser or the DSL; the rule keeps it that way for
+    sequences whose element type is a parsed node."""
+    r = rep.rule("R-C01-order", "parsed sequences keep their source order: no reversing/sorting/swapping/last-only call (rev, rfold, next_back, "
+                                "reverse, sort*, swap*, rotate*, last, dedup*) on a sequence of parsed nodes in parser or DSL code",
+                 floor=150, floor_what="iterator/sequence calls over parsed nodes scanned")
+    n = 0
+    for b in sorted(ctx.prog.bodies.values(), key=lambda x: x.id):
+        if b.f["crate"] not in ("ironplc_parser", "ironplc_dsl") or "::test" in norm(b.id):
+            continue
+        from vlib.mir import loc_macro
+        cnt = {}
+        for c in sorted(b.calls(), key=lambda c: (c.loc[0], c.loc[1])):
+            nm = (c.callee or c.u or "").split("::")[-1]
+            if nm not in REVERSING and nm not in FORWARD:
+                continue
+            ga = (c.ga or "") + " " + (c.st or "")
+            if not ("ironplc_dsl::" in ga or "ironplc_parser::parser::" in ga or "ironplc_parser::vars::" in ga or "ironplc_parser::token::Token" in ga):
+                continue
+            m = loc_macro(c.loc)
+            if m and m[0] in ("Derive:Logos", "Derive:Recurse", "Derive:Debug", "Derive:PartialEq", "Derive:Clone"):
+                continue
+            n += 1
+            if nm in REVERSING:
+                fn = norm(b.id).replace("ironplc_parser::", "").replace("ironplc_dsl::", "dsl::")
+                k = cnt[nm] = cnt.get(nm, 0) + 1
+                r.finding("%s|%s#%d" % (fn, nm, k), "%s:%d" % (b.f["file"], c.loc[0]),
+                          "%s() on a sequence of parsed nodes: the elements are used in an order other than the one they were written in (or only the last one is kept)" % nm)
+    if not any(i["verdict"] == "finding" for i in r.instances):
+        r.ok("parser+dsl|no order-changing call", "compiler/parser/src, compiler/dsl/src", "%d forward calls" % n)
+    r.count_override = n
+    r.note("%d iterator/sequence calls over parsed nodes scanned" % n)
